@@ -11,6 +11,7 @@ pub mod model;
 pub mod mutate;
 pub mod print;
 pub mod tape;
+pub mod variants;
 
 pub use build::{build_project, GenConfig};
 pub use model::*;
